@@ -64,6 +64,16 @@ fn main() {
                 let cat: String = toks.iter().map(|(_, ind, sp, t, nl)| format!("{}{}{}{}", " ".repeat(ind * 2), if *sp { " " } else { "" }, t, if *nl { "\n" } else { "" })).collect();
                 if &cat != s { out.fail(&case, "pretty-tokens-differ-from-string", &format!("query {}: pretty tokens give {:?} but pretty serialisation {:?}", qi, cat, s)); }
             }
+            // every token is paired with the (node, event) the output-event stream lists at that position: the token streams
+            // list, for each node, exactly its events
+            for (what, ev) in [("tokens", &o.tok_events), ("pretty_tokens", &o.ptok_events)] {
+                if let Some(ev) = ev {
+                    if ev != &o.outputs {
+                        let i = ev.iter().zip(o.outputs.iter()).position(|(x, y)| x != y).unwrap_or(ev.len().min(o.outputs.len()));
+                        out.fail(&case, "token-events-differ-from-outputs", &format!("query {}: {} pairs position {} with {:?} where outputs() lists {:?} ({} against {} events)", qi, what, i, ev.get(i), o.outputs.get(i), ev.len(), o.outputs.len()));
+                    }
+                }
+            }
             // Write-based entry point emits the same bytes
             if p.cdata.is_empty() && !p.unescaped_gt {
                 let mut buf: Vec<u8> = vec![];
